@@ -302,7 +302,7 @@ func (p *polling) DoWrite(ctx *types.HttpContext, data types.BufferInterface, op
 		return
 	}
 
-	encoding := utils.Contains(ctx.Headers().Peek("Accept-Encoding"), []string{"gzip", "deflate", "br", "zstd"})
+	encoding := acceptedEncoding(ctx.Headers().Peek("Accept-Encoding"), []string{"gzip", "deflate", "br", "zstd"})
 	if encoding == "" {
 		respond(data, strconv.Itoa(data.Len()))
 		return
@@ -320,6 +320,20 @@ func (p *polling) DoWrite(ctx *types.HttpContext, data types.BufferInterface, op
 
 	headers.Set("Content-Encoding", encoding)
 	respond(buf, strconv.Itoa(buf.Len()))
+}
+
+// Returns the first of the codings that the Accept-Encoding header names as a token
+// (a coding that is merely a substring of another token is not named).
+func acceptedEncoding(header string, codings []string) string {
+	for _, coding := range codings {
+		for _, element := range strings.Split(header, ",") {
+			token, _, _ := strings.Cut(element, ";")
+			if strings.EqualFold(strings.TrimSpace(token), coding) {
+				return coding
+			}
+		}
+	}
+	return ""
 }
 
 // Compresses data.
